@@ -211,6 +211,10 @@ def run(rep, ctx):   # noqa: F811  (final definition)
     run_T4(rep, g, reach, ta)
     run_P(rep, g, reach)
     run_N(rep, g, reach)
+    from ..unsafe_audit import run_U
+    run_U(rep, g)
+    from ..liveness import run_liveness
+    run_liveness(rep, ctx.fx, ['T1', 'T2', 'T3', 'T4', 'P-overflow', 'P-div', 'P-unwrap', 'N', 'U0'])
 
 
 def run_N(rep, g, reach, scope_name='read-reachable', floor=90):
